@@ -1,4 +1,6 @@
 import Bw.Json
+import Bw.Walk
+import Bw.Lemmas.WalkSim
 open Lean Bw Bw.J Bw.Blocks Bw.Diff Bw.Val Bw.Pipe
 
 /-- regex oracle table: pattern ↦ (compiles, text ↦ captures) -/
@@ -125,6 +127,11 @@ def tagJson (t : Tag.Tag) : Json :=
 def handle (j : Json) : Json :=
   match j.getObjValAs? String "op" with
   | .ok "pipeline" => handlePipeline j
+  | .ok "walk" =>
+    let segs : List Walk.Seg := (strD j "segs").filterMap (fun c =>
+      if c = 'k' then some .keep else if c = 'd' then some .del else if c = 'a' then some .add else none)
+    let enc (l : List (Nat × Bool)) : Json := Json.arr (l.map (fun (n, e) => Json.arr #[n, e])).toArray
+    Json.mkObj [("walk", enc (Walk.walk segs)), ("walkR", enc (Walk.walkR segs)), ("knownDel", Walk.knownDel segs)]
   | .ok "tags" => Json.arr ((Tag.scanAll cfg (strD j "text")).map tagJson).toArray
   | .ok "cblock" => tj (Comment.cBlock (strD j "text"))
   | .ok "lookup" =>
